@@ -44,3 +44,9 @@ N("c11-n-check-eq", "C11", SYNC, "Condition._check_acquired", "if self._owner_ta
 N("c11-n-wait-handler-order", "C11", SYNC, W,
   "            if not event.is_set():\n                self._waiters.remove(event)\n            elif self._waiters:\n                # This task was notified by could not act on it, so pass\n                # it on to the next task\n                self._waiters.popleft().set()",
   "            if event.is_set():\n                if self._waiters:\n                    self._waiters.popleft().set()\n            else:\n                self._waiters.remove(event)")
+
+# ---- adapter / factory / async with (R11-f)
+M("c11-adapter-early-set-lost", "C11", SYNC, "EventAdapter.set", "        if self._internal_event is None:\n            self._is_set = True\n        else:\n            self._event.set()", "        if self._internal_event is not None:\n            self._event.set()", ["R11-f", "R11-a"])
+M("c11-adapter-is-set-stale", "C11", SYNC, "EventAdapter.is_set", "        return self._internal_event.is_set()", "        return self._is_set", ["R11-f"])
+M("c11-adapter-wait-not-awaited", "C11", SYNC, "EventAdapter.wait", "        await self._event.wait()", "        if not self._event.is_set():\n            await self._event.wait()", ["R11-f"])
+M("c11-condition-aexit-conditional", "C11", SYNC, "Condition.__aexit__", "        self.release()", "        if exc_type is None:\n            self.release()", ["R11-f"])
